@@ -1150,7 +1150,10 @@ func (f *fnState) ret(i *ssa.Return) {
 		ctx := f.specCtx(binds)
 		for _, c := range f.fc.Ensures {
 			t := f.specBool(c.E, ctx)
-			f.oblige("POST", c.Label, normSite(c.Text)+" @ "+f.site(), t)
+			if o := f.oblige("POST", c.Label, normSite(c.Text)+" @ "+f.site(), t); o != nil {
+				// postconditions are independent goals: a failed one must not make the others vacuous
+				f.log = f.log[:len(f.log)-1]
+			}
 		}
 		f.frameCheck()
 		for _, ni := range f.fc.NI {
